@@ -330,7 +330,8 @@ impl fmt::Display for BoardBuilder {
 
         write!(f, " ")?;
         if let Some(sq) = self.get_en_passant() {
-            write!(f, "{}", sq)?;
+            // FEN names the square the pawn passed over, not the pawn's square
+            write!(f, "{}", sq.ubackward(!self.side_to_move))?;
         } else {
             write!(f, "-")?;
         }
